@@ -214,7 +214,7 @@ class CFG:
             self._edge(p, n, label)
 
     def _in_try(self) -> bool:
-        return any(f.kind == "try" for f in self.stack)
+        return any(f.kind == "try" and not f.synthetic for f in self.stack)
 
     def _may_raise(self, n: Node) -> bool:
         for e in n.exprs():
@@ -240,6 +240,8 @@ class CFG:
 
     def _match(self, h, name) -> str:
         hn = self._handler_names(h)
+        if hn and hn[0].startswith("__InlineReturn"):
+            return "yes" if name == hn[0] else "no"
         if hn is None or "BaseException" in hn:
             return "yes"
         if name is None:
@@ -311,7 +313,7 @@ class CFG:
             return None
         e = exc.func if isinstance(exc, ast.Call) else exc
         d = dotted(e)
-        if d and d.split(".")[-1][:1].isupper():
+        if d and (d.split(".")[-1][:1].isupper() or d.startswith("__InlineReturn")):
             return d.split(".")[-1]
         return None
 
@@ -411,7 +413,8 @@ class CFG:
                 self.stack.append(ffr)
             handlers = [(h, self._new("except", h, s)) for h in s.handlers]
             if handlers:
-                tfr = _Frame("try", handlers=handlers, stmt=s)
+                syn = all(isinstance(h.type, ast.Name) and h.type.id.startswith("__InlineReturn") for h, _ in handlers)
+                tfr = _Frame("try", handlers=handlers, stmt=s, synthetic=syn)
                 self.stack.append(tfr)
             outs = self._block(s.body, preds)
             if handlers:
